@@ -43,6 +43,16 @@ Theorem C04_credit_bound :
 Proof. exact sender_credit_bound. Qed.
 Print Assumptions C04_credit_bound.
 
+(* the stall itself: split any run at the moment the consumer stops taking frames.  Whatever happened before - however long the
+   run - the publishes that still include the consumer are at most ONE (its unanswered request, if any) plus the requests it had
+   already put on the wire.  The number does not depend on the length of [pre] (nor on the stall's length: [post] is arbitrary). *)
+Theorem C04_stall_bound :
+  forall kc ku nout required pre post,
+    Forall no_push_item (pre ++ post) -> Forall (k_sync_item kc ku) (pre ++ post) ->
+    (total_pub kc ku (fst (srun (init_sender nout false required) pre)) post <= 1 + total_req kc ku post)%nat.
+Proof. exact sender_stall_bound. Qed.
+Print Assumptions C04_stall_bound.
+
 (* silent clients leave the wait set only through CLOSE or after CONN_TIMEOUT *)
 Theorem C04_eviction_only_after_timeout :
   forall bal tmin snap cl ds outs cl' ds' outs' x,
